@@ -278,6 +278,8 @@ def fix_ptm(molecule):
 
     # Keep track of all nodes that get removed due to unknown PTMs
     removed = set()
+    # And of the labels to put on the residues: (node indices, modification)
+    to_label = []
 
     known_ptms = molecule.force_field.modifications
 
@@ -359,16 +361,22 @@ def fix_ptm(molecule):
                                          val, format_atom_string(mol_node),
                                          type='change-atom')
                             mol_node[attr_name] = val
-            # Atoms of these residues can have been removed with an earlier,
-            # unidentified, group of atoms.
-            for n_idx in n_idxs - removed:
-                node = molecule.nodes[n_idx]
-                if not ('modification' in node and ptm in node.get('modifications', [])):
-                    # These nodes already had the modification annotated.
-                    # Also note that 'modification' != 'modifications'. Yes,
-                    # this is an issue. No, I'm not fixing that.
-                    node['modifications'] = node.get('modifications', [])
-                    node['modifications'].append(ptm)
+            to_label.append((n_idxs, ptm))
+
+    # The residues are labelled only once all the groups of atoms have been
+    # identified: identify_ptms takes a 'modifications' label on a not yet
+    # identified atom to mean that the atom is already accounted for.
+    for n_idxs, ptm in to_label:
+        # Atoms of these residues can have been removed with an unidentified
+        # group of atoms.
+        for n_idx in n_idxs - removed:
+            node = molecule.nodes[n_idx]
+            if not ('modification' in node and ptm in node.get('modifications', [])):
+                # These nodes already had the modification annotated.
+                # Also note that 'modification' != 'modifications'. Yes,
+                # this is an issue. No, I'm not fixing that.
+                node['modifications'] = node.get('modifications', [])
+                node['modifications'].append(ptm)
 
 
 class CanonicalizeModifications(Processor):
